@@ -1,6 +1,9 @@
 Ast.vo Ast.glob Ast.v.beautified Ast.required_vo: Ast.v 
 Ast.vio: Ast.v 
 Ast.vos Ast.vok Ast.required_vos: Ast.v 
+Comments.vo Comments.glob Comments.v.beautified Comments.required_vo: Comments.v Generated.vo
+Comments.vio: Comments.v Generated.vio
+Comments.vos Comments.vok Comments.required_vos: Comments.v Generated.vos
 Config.vo Config.glob Config.v.beautified Config.required_vo: Config.v Ast.vo Generated.vo
 Config.vio: Config.v Ast.vio Generated.vio
 Config.vos Config.vok Config.required_vos: Config.v Ast.vos Generated.vos
@@ -37,6 +40,9 @@ Model.vos Model.vok Model.required_vos: Model.v Ast.vos Generated.vos Config.vos
 Order.vo Order.glob Order.v.beautified Order.required_vo: Order.v Ast.vo Generated.vo HookSites.vo Erase.vo
 Order.vio: Order.v Ast.vio Generated.vio HookSites.vio Erase.vio
 Order.vos Order.vok Order.required_vos: Order.v Ast.vos Generated.vos HookSites.vos Erase.vos
+P_Comments.vo P_Comments.glob P_Comments.v.beautified P_Comments.required_vo: P_Comments.v Generated.vo Comments.vo
+P_Comments.vio: P_Comments.v Generated.vio Comments.vio
+P_Comments.vos P_Comments.vok P_Comments.required_vos: P_Comments.v Generated.vos Comments.vos
 P_Config.vo P_Config.glob P_Config.v.beautified P_Config.required_vo: P_Config.v Ast.vo Generated.vo Config.vo ToConfig.vo Model.vo
 P_Config.vio: P_Config.v Ast.vio Generated.vio Config.vio ToConfig.vio Model.vio
 P_Config.vos P_Config.vok P_Config.required_vos: P_Config.v Ast.vos Generated.vos Config.vos ToConfig.vos Model.vos
@@ -145,9 +151,9 @@ Properties/C08.vos Properties/C08.vok Properties/C08.required_vos: Properties/C0
 Properties/C09.vo Properties/C09.glob Properties/C09.v.beautified Properties/C09.required_vo: Properties/C09.v SrcMap.vo P_SrcMap.vo
 Properties/C09.vio: Properties/C09.v SrcMap.vio P_SrcMap.vio
 Properties/C09.vos Properties/C09.vok Properties/C09.required_vos: Properties/C09.v SrcMap.vos P_SrcMap.vos
-Properties/C10.vo Properties/C10.glob Properties/C10.v.beautified Properties/C10.required_vo: Properties/C10.v SrcMap.vo P_SrcMap.vo
-Properties/C10.vio: Properties/C10.v SrcMap.vio P_SrcMap.vio
-Properties/C10.vos Properties/C10.vok Properties/C10.required_vos: Properties/C10.v SrcMap.vos P_SrcMap.vos
+Properties/C10.vo Properties/C10.glob Properties/C10.v.beautified Properties/C10.required_vo: Properties/C10.v SrcMap.vo P_SrcMap.vo Comments.vo P_Comments.vo
+Properties/C10.vio: Properties/C10.v SrcMap.vio P_SrcMap.vio Comments.vio P_Comments.vio
+Properties/C10.vos Properties/C10.vok Properties/C10.required_vos: Properties/C10.v SrcMap.vos P_SrcMap.vos Comments.vos P_Comments.vos
 Properties/C11.vo Properties/C11.glob Properties/C11.v.beautified Properties/C11.required_vo: Properties/C11.v SrcMap.vo P_SrcMap.vo JsSide.vo P_JsSide.vo
 Properties/C11.vio: Properties/C11.v SrcMap.vio P_SrcMap.vio JsSide.vio P_JsSide.vio
 Properties/C11.vos Properties/C11.vok Properties/C11.required_vos: Properties/C11.v SrcMap.vos P_SrcMap.vos JsSide.vos P_JsSide.vos
@@ -163,6 +169,6 @@ Properties/C14.vos Properties/C14.vok Properties/C14.required_vos: Properties/C1
 Properties/C15.vo Properties/C15.glob Properties/C15.v.beautified Properties/C15.required_vo: Properties/C15.v Ast.vo Generated.vo Config.vo Model.vo HookSites.vo WfTree.vo P_Telemetry.vo P_Count.vo P_CountGlobal.vo P_CountProgram.vo
 Properties/C15.vio: Properties/C15.v Ast.vio Generated.vio Config.vio Model.vio HookSites.vio WfTree.vio P_Telemetry.vio P_Count.vio P_CountGlobal.vio P_CountProgram.vio
 Properties/C15.vos Properties/C15.vok Properties/C15.required_vos: Properties/C15.v Ast.vos Generated.vos Config.vos Model.vos HookSites.vos WfTree.vos P_Telemetry.vos P_Count.vos P_CountGlobal.vos P_CountProgram.vos
-Properties/C16.vo Properties/C16.glob Properties/C16.v.beautified Properties/C16.required_vo: Properties/C16.v Ast.vo Generated.vo Config.vo Model.vo
-Properties/C16.vio: Properties/C16.v Ast.vio Generated.vio Config.vio Model.vio
-Properties/C16.vos Properties/C16.vok Properties/C16.required_vos: Properties/C16.v Ast.vos Generated.vos Config.vos Model.vos
+Properties/C16.vo Properties/C16.glob Properties/C16.v.beautified Properties/C16.required_vo: Properties/C16.v Ast.vo Generated.vo Config.vo Model.vo Comments.vo P_Comments.vo
+Properties/C16.vio: Properties/C16.v Ast.vio Generated.vio Config.vio Model.vio Comments.vio P_Comments.vio
+Properties/C16.vos Properties/C16.vok Properties/C16.required_vos: Properties/C16.v Ast.vos Generated.vos Config.vos Model.vos Comments.vos P_Comments.vos
